@@ -44,6 +44,9 @@ def cases(tier: str, seed: int) -> list[dict]:
             if len(ns) > cap:
                 ns = sorted(rng.sample(ns, cap))
             ev += [{"a": "SelectIndex", "n": n, "kind": kind} for n in ns]
+            # several cells asked for in one call: position k of the answer is cell ns[k]
+            if len(ns) >= 2:
+                ev.append({"a": "SelectIndexes", "ns": [ns[-1], ns[0], ns[len(ns) // 2]], "kind": kind, "dim": "req"})
         for p in GW.probe_points(w, rng, limit=25 if tier == "quick" else 60):
             ev.append({"a": "Query", "p": p})
             if len(ev) % 3 == 0:
